@@ -1469,6 +1469,38 @@ def task_fstat_kernels(scratch, tier, seed, logdir):
     return out
 
 
+def task_error_before_output(scratch, tier, seed, logdir):
+    """C16 / C10: in View::run, Fold::run and Stat::run a failed read returns the error before any
+    writer / statistics runner is constructed or called."""
+    fns = fns_for(scratch, "sfs-cli")
+    ob = Ob("error_before_output", ["view::View::run", "fold::Fold::run", "stat::Stat::run"], "every acyclic path; calls uninterpreted")
+    try:
+        n = 0
+        for pat, params in ((r"view\.rs>::run$", ["View"]), (r"fold\.rs>::run$", ["Fold"]), (r"stat\.rs>::run$", ["Stat"])):
+            f = mir.find_fn(fns, pat, params=params)
+            for p in mir.Exec(f, [], max_paths=20000).run({"_1": V("cmd", "U")}):
+                if p.end != "return":
+                    continue
+                failed_read = [c for t, c in p.state.pc if re.match(r"discriminant\(<std::result::Result<Spectrum<Counts>, std::io::Error> as Try>::branch\(.*read::Builder::read\(", show(t)) and c == ("eq", "1")]
+                bad_input = [c for t, c in p.state.pc if re.match(r"discriminant\(<std::result::Result<Input, std::io::Error> as Try>::branch\(", show(t)) and c == ("eq", "1")]
+                if not (failed_read or bad_input):
+                    continue
+                n += 1
+                names = [e[0] for e in p.state.events]
+                out = [x for x in names if re.search(r"write::Builder|write_to_|stat::runner::Runner|Runner::<.*>::(new|run)|fold\(|marginalize|normalize", x)]
+                if out:
+                    ob.fail("violation", f"{params[0]}::run: after a failed read it still calls {out[0][:80]}")
+                if "from_residual" not in show(p.ret):
+                    ob.fail("violation", f"{params[0]}::run: a failed read is not returned as the error")
+        if n < 6:
+            ob.fail("inconclusive", f"only {n} failing-read paths found")
+        ob.d["nonvacuous"] = n >= 6
+        ob.d["queries"] += n
+    except (LookupError, ValueError, RuntimeError, KeyError, IndexError) as e:
+        ob.fail("inconclusive", f"translator: {type(e).__name__}: {e}")
+    return [ob.done()]
+
+
 def task_main_exit(scratch, tier, seed, logdir):
     """C10 / C16 / C17: main maps every Err of run() to a message on stderr and exit status 1."""
     fns = fns_for(scratch, "sfs-cli")
@@ -1550,6 +1582,7 @@ TASKS = {
     "site_builder_build": task_site_builder_build,
     "project_wiring": task_project_wiring,
     "fstat_kernels": task_fstat_kernels,
+    "error_before_output": task_error_before_output,
     "shape_closures": task_shape_closures,
 }
 
